@@ -195,6 +195,36 @@ impl<T> RcInner<T> {
         true
     }
 
+    /// Increments the strong count unless the object is destructed.
+    ///
+    /// Unlike `increment_strong`, an increment from zero adds the reference and the permission
+    /// to run decrement again in a single atomic step. It must be used when nothing prevents the
+    /// pending `try_destruct` from running concurrently, i.e., when the caller holds neither a
+    /// strong reference nor a `Snapshot`.
+    #[inline]
+    pub(crate) fn try_increment_strong(&self) -> bool {
+        let mut old = State::from_raw(self.state.load(Ordering::SeqCst));
+        loop {
+            if old.destructed() {
+                return false;
+            }
+            let new = if old.strong() == 0 {
+                old.add_strong(2)
+            } else {
+                old.add_strong(1)
+            };
+            match self.state.compare_exchange(
+                old.as_raw(),
+                new.as_raw(),
+                Ordering::SeqCst,
+                Ordering::SeqCst,
+            ) {
+                Ok(_) => return true,
+                Err(curr) => old = State::from_raw(curr),
+            }
+        }
+    }
+
     #[inline]
     unsafe fn try_dealloc(ptr: *mut Self) {
         if State::from_raw((*ptr).state.load(Ordering::SeqCst)).weak() > 0 {
